@@ -401,6 +401,18 @@ class Poly:
         if d.is_const():
             v = d.const_value()
             return {"<": v < 0, "<=": v <= 0, ">": v > 0, ">=": v >= 0}[op]
+        sg = _generic_sign(d)
+        if sg is not None:
+            return {"<": sg < 0, "<=": sg <= 0, ">": sg > 0, ">=": sg >= 0}[op]
+        # an algebraic constant (roots of constants, no symbols): separated from zero by its 80-digit value
+        try:
+            v = const_decimal(d)
+        except Undecided:
+            v = None
+        except Exception:
+            v = None
+        if v is not None and abs(v) > _SEP:
+            return {"<": v < 0, "<=": v <= 0, ">": v > 0, ">=": v >= 0}[op]
         raise Undecided("order comparison on symbolic data: (%s) %s (%s)" % (self, op, o))
 
     def __lt__(self, o):
@@ -445,6 +457,33 @@ class Poly:
 
 
 ORDER_ORACLE = [None]
+
+
+def _generic_sign(d):
+    """sign of a single-term element at a generic real point: the coefficient's sign when every generator of the monomial is positive there
+    (positive symbols, roots of primes, Exp / Abs atoms, principal even roots, even powers); None otherwise"""
+    if len(d.t) != 1:
+        return None
+    (m, c), = d.t.items()
+    for g, e in m:
+        e = _fr(e)
+        if g < 0:
+            continue
+        inf = G.info[g]
+        k = inf["kind"]
+        if k == "sym" and inf.get("positive"):
+            continue
+        if e.denominator == 1 and e.numerator % 2 == 0:
+            continue
+        if k == "pow" and e.denominator % 2 == 0:
+            continue
+        if k == "fun" and inf.get("fname") in ("Exp", "Abs", "Cosh"):
+            continue
+        return None
+    return 1 if c > 0 else -1
+
+import decimal as _decimal
+_SEP = _decimal.Decimal(10) ** -40
 AUTO_CANCEL = [True]
 
 
